@@ -165,6 +165,12 @@ func (d *Directory) AddTimeBucket(tbk *io.TimeBucketKey, f *io.TimeBucketInfo) (
 	if err = tbk.Validate(); err != nil {
 		return err
 	}
+	// the schema is stored in a fixed-size file header: refuse what would not be read back unchanged
+	if f != nil {
+		if err = f.ValidateSchema(); err != nil {
+			return err
+		}
+	}
 	d.Lock()
 	defer d.Unlock()
 
